@@ -8,7 +8,6 @@
 -/
 import MofunModel.Proofs.Code7Find
 import MofunModel.Proofs.FindCompleteGroup
-import MofunModel.Props.C02Code5
 
 namespace Mofun.C02Code7
 open Mofun Mofun.Generated Mofun.Code2Find Mofun.Code7Find
